@@ -277,7 +277,7 @@ func ruleR05(c *Ctx) {
 			c.r.bad("R05", tk.Name+" "+map[bool]string{true: "terminator-on-unsanitised-payload", false: "keys-not-prefix-free"}[pf.class == "terminated-unsanitised"], pos, pf.reason, props...)
 		}
 	}
-	c.r.floor("R05", 6, "tree kinds", "C01")
+	c.r.floor("R05", 4, "tree kinds", "C01")
 	c.pf = out
 }
 
